@@ -1240,6 +1240,37 @@ sym_int = _Callable(int, _sym_int, from_bytes=_int_from_bytes)
 ZTAG = b'\x00ZSTUB'   # what the zlib stand-in prepends (CM=0: never a valid zlib header)
 
 
+ZCTAG = b'\x00ZCMPR'   # tag of the COMPRESSIBLE model: ZCTAG + an opaque body whose length the harness chooses
+_ZC = {'ctx': None, 'map': {}}
+
+
+def _zc_key(terms):
+    return tuple(x if isinstance(x, int) else ('t', x.get_id()) for x in terms)
+
+
+def _zc_register(plain, clen):
+    """compressible model (ZLIB_MODEL['compressible'] = fn(plain_len) -> body length): compress() is an injective
+    uninterpreted function whose result has `clen` fresh, unconstrained bytes - the model makes no statement about WHAT zlib
+    emits, only about how long it is; decompress of exactly those bytes (they survive an obfuscation round trip as the same
+    hash-consed terms) gives the plain bytes back."""
+    c = symex.ctx()
+    if _ZC['ctx'] is not c:
+        _ZC['ctx'], _ZC['map'] = c, {}
+    clen = max(1, operator.index(clen))
+    k = len(_ZC['map'])
+    z = [c.fresh_bv(f'_zc{k}[{i}]', 8) for i in range(clen)]
+    _ZC['map'][_zc_key(z)] = (z, list(plain))
+    return z
+
+
+def zc_plain(body_terms):
+    """plain byte terms of a compressible-model body (without ZCTAG), or None when it is not one produced on this path"""
+    if _ZC['ctx'] is not symex._CTX:
+        return None
+    hit = _ZC['map'].get(_zc_key([_norm(x) for x in body_terms]))
+    return None if hit is None else list(hit[1])
+
+
 class _ZlibStub:
     """symbolic data: tagged identity, compress(x) = ZTAG + x, decompress of an untagged symbolic
     buffer raises zlib.error.  Fully concrete data goes through the real zlib."""
@@ -1251,6 +1282,8 @@ class _ZlibStub:
         t = terms_of(data)
         if all(isinstance(x, int) for x in t):
             return SBytes(list(_zlib.compress(bytes(t), *a, **kw)))
+        if ZLIB_MODEL.get('compressible') is not None:
+            return SBytes(list(ZCTAG) + _zc_register(t, ZLIB_MODEL['compressible'](len(t))))
         return SBytes(list(ZTAG) + t)
 
     @staticmethod
@@ -1259,6 +1292,11 @@ class _ZlibStub:
         n = len(ZTAG)
         if len(t) >= n and all(isinstance(x, int) for x in t[:n]) and bytes(t[:n]) == ZTAG:
             return SBytes(t[n:])
+        if len(t) >= n and all(isinstance(x, int) for x in t[:n]) and bytes(t[:n]) == ZCTAG:
+            plain = zc_plain(t[n:])
+            if plain is None:
+                raise _zlib.error('Error -3 while decompressing data: invalid stored block (unknown compressed body in the model)')
+            return SBytes(plain)
         if all(isinstance(x, int) for x in t):
             return SBytes(list(_zlib.decompress(bytes(t), *a, **kw)))
         if len(t) < n or not _sym_truth(_and(*[_teq(x, y) for x, y in zip(t[:n], ZTAG)])):
@@ -1331,6 +1369,11 @@ class _DecompressObjStub:
         if self._mode is None:
             if len(t) >= n and all(isinstance(x, int) for x in t[:n]) and bytes(t[:n]) == ZTAG:
                 self._mode, self._pending = 'complete', t[n:]
+            elif len(t) >= n and all(isinstance(x, int) for x in t[:n]) and bytes(t[:n]) == ZCTAG:
+                plain = zc_plain(t[n:])
+                if plain is None:
+                    raise _zlib.error('Error -3 while decompressing data: invalid stored block (unknown compressed body in the model)')
+                self._mode, self._pending = 'complete', plain      # max_length is honoured below exactly as for ZTAG
             elif ZLIB_MODEL['truncated_tag'] and len(t) >= n and all(isinstance(x, int) for x in t[:n]) and bytes(t[:n]) == ZTRUNC:
                 self._mode, self._pending = 'truncated', t[n:]
             elif concrete:
